@@ -33,8 +33,22 @@ func scenarioC09(rc *RunCtx) *Violation {
 	p := GenProject(g, "/p")
 	o := GenOptions(g, p)
 	o.Metafile = true
+	if g.chance(20) {
+		// a plain CommonJS file inside a package whose package.json says "type": "module":
+		// its diagnostics carry notes that point at the "type" field
+		p.Legacy = true
+		p.HasRootPJ = true
+		p.PkgType = "module"
+		rc.Probe("legacy_module_profile")
+	}
 	if o.Inject {
 		p.Extra["src/inject.js"] = "export let injected = 'INJ';\nconsole.log('inject');\n"
+	}
+	if g.n(8) == 0 {
+		// a style-sheet site next to the modules: CSS entry points, @layer lists, sheets imported twice
+		o.Bundle = true
+		p.AddCSSSite(g)
+		rc.Probe("profile_css_site")
 	}
 	d := newDisk(g)
 	d.Gran = granChoices[g.n(len(granChoices))]
